@@ -323,3 +323,33 @@ def ok_payload_selectors(f, fn_body, wanted):
             raise AnchorError(f"Ok payload of {fn_body.path}: {len(c)} fields of type /{rx}/")
         out[label] = c[0]
     return out
+
+
+class Relabel:
+    """forward the obligations of rule ids of another property's module under this property's rule id"""
+
+    def __init__(self, R, mapping):
+        self.R, self.m = R, mapping
+        self.stats = R.stats
+
+    def check(self, rule, *a, **kw):
+        return self.R.check(self.m.get(rule, rule), *a, **kw)
+
+    def bad(self, rule, *a, **kw):
+        return self.R.bad(self.m.get(rule, rule), *a, **kw)
+
+    def ok(self, rule, *a, **kw):
+        return self.R.ok(self.m.get(rule, rule), *a, **kw)
+
+    def rule(self, *a, **kw):
+        pass
+
+
+def family_predicate_proxy(R, ctx, rule, text):
+    """the whole-function tables of the directory listing and of filter_files (C14 R14.2) under another property's rule id:
+    every file of the logger's own family is recognised, nothing else is"""
+    import c14
+    R.rule(rule, text)
+    RR = Relabel(R, {'R14.2': rule})
+    c14.listing_table(RR, ctx, 'parameters::file_spec::FileSpec::read_dir_related_files')
+    c14.family_table(RR, ctx, 'parameters::file_spec::FileSpec::filter_files')
